@@ -144,11 +144,26 @@ func scribbledALPN(c *ech.Conn) []string {
 	return append([]string{}, again...)
 }
 
+func cloneKeys(keys []ech.Key) []ech.Key {
+	if keys == nil {
+		return nil
+	}
+	out := make([]ech.Key, len(keys))
+	for i, k := range keys {
+		out[i] = ech.Key{Config: bytes.Clone(k.Config), PrivateKey: bytes.Clone(k.PrivateKey), SendAsRetry: k.SendAsRetry}
+	}
+	return out
+}
+
 func runNewConnInner(record []byte, keys []ech.Key) (o obsNewConn) {
 	sc := newScriptConn(record)
+	keysBefore := cloneKeys(keys)
 	defer func() {
 		if r := recover(); r != nil {
 			o.Kind, o.Panic = "panic", fmt.Sprint(r)
+		}
+		if o.Kind != "panic" && !reflect.DeepEqual(keysBefore, cloneKeys(keys)) {
+			o.Kind, o.Panic = "panic", "NewConn / Read modified the key list the caller passed to WithKeys"
 		}
 	}()
 	var opts []ech.Option
